@@ -4,12 +4,14 @@
 //! and therefore has 'unsafe' code.
 
 use std::time::Duration;
-use std::sync::atomic::{AtomicUsize, Ordering};
+use std::sync::atomic::{AtomicBool, AtomicUsize, Ordering};
 use thread_timer::ThreadTimer;
 
 use super::logic_var::*;
 
-static mut SUIRON_STOP_QUERY: bool = false;
+// The flag is written by the timer thread while the thread which runs
+// the query reads it, so it has to be atomic.
+static SUIRON_STOP_QUERY: AtomicBool = AtomicBool::new(false);
 
 // Serial number of the most recently started (or cancelled) query timer.
 // A timer may only stop a query while its own serial number is still the
@@ -34,7 +36,7 @@ static QUERY_TIMER_SERIAL: AtomicUsize = AtomicUsize::new(0);
 /// let timer = start_query_timer(300);
 /// ```
 pub fn start_query_timer(milliseconds: u64) -> ThreadTimer {
-    unsafe { SUIRON_STOP_QUERY = false; }
+    SUIRON_STOP_QUERY.store(false, Ordering::SeqCst);
     let serial = QUERY_TIMER_SERIAL.fetch_add(1, Ordering::SeqCst) + 1;
     let timer = ThreadTimer::new();
     timer.start(Duration::from_millis(milliseconds),
@@ -74,7 +76,7 @@ pub fn cancel_timer(timer: ThreadTimer) {
 /// In order to keep the substitution set small, the LOGIC_VAR_ID is
 /// reset to 0 at the start of every query.
 pub fn start_query() {
-    unsafe { SUIRON_STOP_QUERY = false; }
+    SUIRON_STOP_QUERY.store(false, Ordering::SeqCst);
     clear_id();
 }
 
@@ -83,7 +85,7 @@ pub fn start_query() {
 /// The SUIRON_STOP_QUERY is checked in count_rules(), in knowledgebase.rs.
 /// Setting it `true` effectively stops the search for a solution.
 pub fn stop_query() {
-    unsafe { SUIRON_STOP_QUERY = true; }
+    SUIRON_STOP_QUERY.store(true, Ordering::SeqCst);
 }
 
 /// Returns value of SUIRON_STOP_QUERY.
@@ -92,7 +94,7 @@ pub fn stop_query() {
 /// # Return
 /// * true/false
 pub fn query_stopped() -> bool {
-    unsafe { SUIRON_STOP_QUERY }
+    SUIRON_STOP_QUERY.load(Ordering::SeqCst)
 }
 
 #[cfg(test)]
